@@ -258,6 +258,49 @@ pub fn search(tier: &str, seed: u64, s: &mut Search) {
                 s.finding(&format!("oracle:C18:{}:shared-definition-not-resolved-per-element", kname), &format!("{} elements with different boxes, definitions in the tree: {:?}", k, ids), &doc_a);
             }
         }
+        // context-fill / context-stroke: marker content and use instances take the referencing element's paint,
+        // resolved against THAT element's object bounding box (curved paths: the box of the geometry, not of
+        // the control points)
+        if i % 3 == 0 && kind <= 2 {
+            let (cx, cy) = (rng.range(20, 60) as f64, rng.range(90, 140) as f64);
+            let (cw, chh) = (rng.range(60, 120) as f64, rng.range(60, 150) as f64);
+            // a cubic whose control points lie far above the curve
+            let d = format!("M {cx} {cy} C {cx} {} {} {} {} {cy}", cy - chh, cx + cw, cy - chh, cx + cw);
+            let probe = format!(r#"{HDR}<path d="{d}" fill="none" stroke="black" stroke-width="1"/></svg>"#);
+            if let Ok(Ok(tp)) = pan::catch(|| usvg::Tree::from_str(&probe, &o)) {
+                if let Some(usvg::Node::Path(pp)) = tp.root().children().first() {
+                    let bb = pp.bounding_box();
+                    let (bx, by, bw, bh) = (bb.x() as f64, bb.y() as f64, bb.width() as f64, bb.height() as f64);
+                    let bm = format!("matrix({bw} 0 0 {bh} {bx} {by})");
+                    // a tall marker standing on the start / end points, spanning the whole box vertically
+                    let mh = chh + 10.0;
+                    let marker = format!(r#"<marker id="mk" markerWidth="36" markerHeight="{mh}" refX="18" refY="{mh}" markerUnits="userSpaceOnUse" orient="0"><rect x="0" y="0" width="16" height="{mh}" fill="context-fill"/><rect x="20" y="0" width="16" height="{mh}" fill="context-stroke"/></marker>"#);
+                    let (da, db) = match kind {
+                        0 => (
+                            r#"<linearGradient id="d" x1="0" y1="0" x2="0" y2="1"><stop offset="0.5" stop-color="red"/><stop offset="0.5" stop-color="blue"/></linearGradient>"#.to_string(),
+                            format!(r#"<linearGradient id="d" gradientUnits="userSpaceOnUse" x1="0" y1="0" x2="0" y2="1" gradientTransform="{bm}"><stop offset="0.5" stop-color="red"/><stop offset="0.5" stop-color="blue"/></linearGradient>"#),
+                        ),
+                        1 => (
+                            r#"<radialGradient id="d" cx="0.5" cy="0.5" r="0.5"><stop offset="0.4" stop-color="yellow"/><stop offset="0.4" stop-color="purple"/></radialGradient>"#.to_string(),
+                            format!(r#"<radialGradient id="d" gradientUnits="userSpaceOnUse" cx="0.5" cy="0.5" r="0.5" gradientTransform="{bm}"><stop offset="0.4" stop-color="yellow"/><stop offset="0.4" stop-color="purple"/></radialGradient>"#),
+                        ),
+                        _ => (
+                            r#"<pattern id="d" width="0.5" height="0.5" patternContentUnits="objectBoundingBox"><rect width="0.25" height="0.25" fill="teal"/></pattern>"#.to_string(),
+                            format!(r#"<pattern id="d" patternUnits="userSpaceOnUse" x="{bx}" y="{by}" width="{}" height="{}"><g transform="scale({bw} {bh})"><rect width="0.25" height="0.25" fill="teal"/></g></pattern>"#, bw * 0.5, bh * 0.5),
+                        ),
+                    };
+                    let body = format!(r##"<path d="{d}" fill="url(#d)" stroke="url(#d)" stroke-width="4" marker-start="url(#mk)" marker-end="url(#mk)"/>"##);
+                    let (ca, cb) = (format!("{HDR}<defs>{da}{marker}</defs>{body}</svg>"), format!("{HDR}<defs>{db}{marker}</defs>{body}</svg>"));
+                    if let (Some((_, qa)), Some((_, qb))) = (render(&ca, &o), render(&cb, &o)) {
+                        s.case("context-paint-on-markers", &ca, true);
+                        let (ok, why) = crate::rend::similar(&qa, &qb, 6);
+                        if !ok {
+                            s.finding(&format!("oracle:C18:{}:context-paint-differs-from-user-space-equivalent", kname), &format!("marker content painted with context-stroke / context-fill: {}; hand-mapped document: {}", why, cb), &ca);
+                        }
+                    }
+                }
+            }
+        }
         // zero-sized boxes: the SVG fallback applies
         if i % 4 == 0 {
             let (x, y, len) = (rng.range(10, 100), rng.range(10, 100), rng.range(20, 80));
